@@ -6,11 +6,17 @@
 (*   {"e":"call","a":id}            Accept started in its own goroutine                    *)
 (*   {"e":"dial","c":id}            a client connection offered to the inner listener       *)
 (*   {"e":"ierr"}                   the next inner Accept fails with a transient error      *)
-(*   {"e":"close","c":id,"returned":b}   Close on an accepted connection (b: it returned)   *)
+(*   {"e":"cstart","c":id}          Close on an accepted connection started in its own       *)
+(*                                  goroutine; it stops inside the underlying Conn.Close       *)
+(*   {"e":"cgo","c":id}             the script lets ONE underlying Conn.Close of c return       *)
+(*   {"e":"cret","c":id}            a Close call on c returned                                *)
 (*   {"e":"lclose","k":id}          Listener.Close started in its own goroutine             *)
 (*   {"e":"ret","a":id,"ok":b,"c":id}    an Accept returned (connection id or error)        *)
 (*   {"e":"q","sem":len(sem),"open":accepted-and-not-closed,"blocked":[Accept ids],         *)
-(*           "lblocked":[Listener.Close ids still running]}    the quiescent point          *)
+(*           "lblocked":[Listener.Close ids still running],                                 *)
+(*           "cgate":[conn id per Close call inside the underlying Close],                   *)
+(*           "crun":number of Close calls that are running but NOT inside the underlying Close}*)
+(*                                                              the quiescent point          *)
 (* A line is matched by the corresponding action of LimitListener; the internal steps       *)
 (* (acquire, inner Accept, drain, close(done)) are taken silently in between.  At "q" the    *)
 (* model must be quiescent too, and agree on who is blocked, on the semaphore occupancy     *)
@@ -34,7 +40,16 @@ SeqSet(s) == {s[i] : i \in 1..Len(s)}
 TCall   == Line.e = "call" /\ Line.a \in Acceptors /\ Call(Line.a)
 TDial   == Line.e = "dial" /\ Line.c \in Conns /\ Dial(Line.c)
 TIErr   == Line.e = "ierr" /\ IErr
-TClose  == Line.e = "close" /\ Line.c \in Conns /\ Line.returned /\ ConnClose(Line.c)
+TCStart == Line.e = "cstart" /\ Line.c \in Conns /\ CStart(Line.c)
+TCGo    == Line.e = "cgo" /\ Line.c \in Conns /\ CGo(Line.c)
+\* a Close call returned: normally after its release step; a call made after the slot was
+\* released may also return without entering the underlying Close again (not required by C58)
+TCRet   == /\ Line.e = "cret" /\ Line.c \in Conns
+           /\ \/ CRet(Line.c)
+              \/ /\ cdone[Line.c] = 0 /\ cgate[Line.c] > 0 /\ nrel[Line.c] = 1
+                 /\ cgate' = [cgate EXCEPT ![Line.c] = @ - 1]
+                 /\ UNCHANGED <<cap, spur, sem, done, iclosed, queue, apc, ares, cst, ncl, cpost, cdone, nrel, lpc, nerr, late>>
+Count(sq, x) == Cardinality({i \in 1..Len(sq) : sq[i] = x})
 TLClose == Line.e = "lclose" /\ Line.k \in Closers /\ LClose1(Line.k)
 TRet    == /\ Line.e = "ret" /\ Line.a \in Acceptors
            /\ IF Line.ok THEN apc[Line.a] = "retok" /\ ares[Line.a] = Line.c
@@ -45,6 +60,8 @@ TQ      == /\ Line.e = "q"
            /\ \A a \in Acceptors : apc[a] \notin {"retok", "reterr"}     \* every return was logged
            /\ Blocked = SeqSet(Line.blocked)
            /\ {k \in Closers : lpc[k] = "s2"} = {} /\ Line.lblocked = <<>>
+           /\ \A c \in Conns : cdone[c] = 0 /\ cgate[c] = Count(Line.cgate, c)   \* every Close call is
+           /\ Line.crun = 0                                   \* inside the underlying Close or returned
            /\ sem = Line.sem
            /\ Cardinality(Open) = Line.open
            /\ UNCHANGED vars
@@ -56,6 +73,8 @@ TQ      == /\ Line.e = "q"
 (*     whatever the others do, and can only enable (never disable) other steps - are taken     *)
 (*     first and in a canonical order: close(done); an inner Accept failing on a closed       *)
 (*     listener (release + error, or error out of the drain loop); and, once the listener is   *)
+(*     listener (release + error, or error out of the drain loop); releaseOnce.Do of a Close    *)
+(*     call whose underlying Close returned; and, once the listener is                        *)
 (*     closed with nothing left to hand out, the done branch of acquire (the slot branch        *)
 (*     leads to the same error and the same semaphore).  Any behaviour can be reordered so      *)
 (*     that these come first, without changing any later state.                               *)
@@ -74,11 +93,13 @@ Dead == iclosed /\ (~spur \/ queue = <<>>)          \* the inner Accept fails fr
 SafeOf(a) == \/ apc[a] \in {"inner", "drain"} /\ Dead
              \/ apc[a] = "acq" /\ done /\ Dead
 SafeClosers == {k \in Closers : lpc[k] = "s2"}
+SafeConns == {c \in Conns : cpost[c] > 0}
 SafeAcceptors == {a \in Acceptors : SafeOf(a)}
 Least(S) == CHOOSE x \in S : \A y \in S : x <= y
 
 TInternal ==
     IF SafeClosers # {} THEN LClose2(Least(SafeClosers))
+    ELSE IF SafeConns # {} THEN CRel(Least(SafeConns))
     ELSE IF SafeAcceptors # {}
     THEN LET a == Least(SafeAcceptors) IN
          IF apc[a] = "inner" THEN InnerErr(a)
@@ -95,7 +116,7 @@ TInternal ==
 TNext ==
     /\ l <= Meta.ends[cur]
     /\ cur' = cur
-    /\ \/ l' = l + 1 /\ (TCall \/ TDial \/ TIErr \/ TClose \/ TLClose \/ TRet \/ TQ)
+    /\ \/ l' = l + 1 /\ (TCall \/ TDial \/ TIErr \/ TCStart \/ TCGo \/ TCRet \/ TLClose \/ TRet \/ TQ)
        \/ l' = l /\ TInternal
 
 TSpec == TInit /\ [][TNext]_tvars
